@@ -317,9 +317,22 @@ def job_stack(kind):
         raise RuntimeError('mass rule of LayeredWorld.reinit not found')
     loader.ENCODED.append({'file': 'TidalPy/structures/world_types/layered.py', 'function': 'LayeredWorld.reinit: world mass rule (AST slice)', 'sha256_16': solve.sha_of(ast.unparse(stm[0]))})
     for given in (None, Q.sym('config_mass')):
-        env = {'self': type('W', (), {'mass': given})(), 'running_layer_masses': mass_below}
+        wcfg = {'name': 'w', 'layers': {}} if given is None else {'name': 'w', 'layers': {}, 'mass': given}
+        wsnap = copy.deepcopy(wcfg)
+        wobj = type('W', (), {'mass': given, '_config': wcfg, 'config': wcfg})()
+        env = {'self': wobj, 'running_layer_masses': mass_below}
         exec(compile(ast.Module(body=[stm[0]], type_ignores=[]), 'layered.py:mass', 'exec'), env)
         want = mass_below if given is None else given
+
+        def rp_cfg(md):
+            out = run_real_world({'kind': 'derived_mass'})
+            if not out:
+                return True, 'the world-mass rule of LayeredWorld.reinit (current source) writes into the world configuration (real replay unavailable)'
+            return True, 'real worlds: %s' % json.dumps(out)[:500]
+        same_cfg = set(wcfg) == set(wsnap) and all(wcfg[k_] is wsnap[k_] or wcfg[k_] == wsnap[k_] for k_ in wsnap if k_ != 'mass') and (('mass' in wcfg) == ('mass' in wsnap))
+        results.append(discharge(Obligation('LayeredWorld.reinit world-mass rule (%s): the world\'s configuration is left as the user wrote it (a mass derived from the layers is not stored as if it '
+                                            'had been configured: derived worlds copy the configuration and would keep the stale value)' % ('mass not configured' if given is None else 'mass configured'),
+                                            z3.BoolVal(bool(same_cfg)), pos, with_axioms=False, with_dens=False, replay=rp_cfg, key='stack:config-untouched')))
         results.append(discharge(Obligation('LayeredWorld.reinit: world mass = %s' % ('sum of layer masses when not configured' if given is None else 'configured mass when given'), eq_goal(env['mass'], want), pos,
                                             replay=lambda md: (True, 'world mass rule wrong'), key='stack:worldmass')))
     results.append(reach_twin('stack ' + kind, pos))
@@ -466,6 +479,64 @@ def job_naming(chain):
     return {'results': results, 'encoded': loader.ENCODED, 'paths': len(paths), 'label': 'naming chain %d' % chain}
 
 
+def job_naming_mixed(kinds):
+    """chains that mix the ways a world is derived: build_from_world with default naming ('build'), with an explicit symbolic new name ('named'), and scale_from_world ('scale', which names its
+    result super-<configured name>). After every step the derived world's configuration must record the name the world was built with (the next derivation reads it from there), and the
+    name must differ from the parent's."""
+    def build_world_stub(name, cfg):
+        return type('World', (), {'name': name, 'config': cfg})()
+    fns, ns = load_builder(build_world_stub)
+    name0 = z3.String('name0')
+    A = [z3.Length(name0) <= 8, z3.Length(name0) >= 1, z3.Not(z3.Contains(name0, z3.StringVal('_variant')))]
+    explicit = [z3.String('explicit%d' % i) for i in range(len(kinds))]
+    for e in explicit:
+        A += [z3.Length(e) <= 8, z3.Length(e) >= 1, z3.Not(z3.Contains(e, z3.StringVal('_variant')))]
+    ex = Explorer(assumptions=A, timeout_ms=20000, max_paths=400)
+
+    def run():
+        world = type('World', (), {'name': SymStr(name0), 'config': {'name': SymStr(name0), 'radius': 1.0, 'layers': {}}})()
+        names, cfgnames = [SymStr(name0)], [SymStr(name0)]
+        for i, kd in enumerate(kinds):
+            _TICKS['n'] = 0
+            if kd == 'build':
+                world = fns['build_from_world'](world, {}, None)
+            elif kd == 'named':
+                world = fns['build_from_world'](world, {}, SymStr(explicit[i]))
+            else:
+                world = fns['scale_from_world'](world, None, None, 2.0)
+            names.append(SymStr.of(world.name))
+            cfgnames.append(SymStr.of(world.config['name']))
+        return names, cfgnames
+    paths = ex.run(run)
+    results = []
+    tag0 = 'derivation chain %s from a fresh name' % '>'.join(kinds)
+
+    def rp(md):
+        # public API: the same chain on a real world (explicit names from the model where given)
+        steps = [[kd, md.get('explicit%d' % i) or 'other'] for i, kd in enumerate(kinds)]
+        out = run_real_world({'naming_mixed': steps, 'name': md.get('name0') or 'demo'}, timeout=600)
+        if not out or out.get('timeout'):
+            return True, 'derivation chain %s executed from the current source: a derived world repeats its parent\'s name or its configuration does not record its name (real replay unavailable: %r)' % (kinds, out)
+        bad = (not out.get('distinct')) or (not out.get('config_records_name'))
+        return True, 'real build_world chain %r: names %r, names recorded in the configurations %r%s' % (steps, out.get('names'), out.get('config_names'),
+                                                                                                      '' if bad else ' -- consistent for these names (the violation needs the model\'s names)')
+    for p in paths:
+        if isinstance(p.exc, LoopBound):
+            results.append(discharge(Obligation('%s: the variant-naming loop terminates' % tag0, z3.Not(z3.And(*p.pc) if p.pc else z3.BoolVal(True)), A, with_axioms=False, with_dens=False, replay=rp,
+                                                key='naming-mixed:terminates', timeout_ms=solve.qtimeout(60, 300))))
+            continue
+        if p.exc is not None:
+            raise RuntimeError('naming harness raised %r' % p.exc)
+        names, cfgnames = p.result
+        tag = '%s, path %s' % (tag0, ''.join('T' if d else 'F' for d in p.decisions))
+        results.append(discharge(Obligation('%s: every derived world has a name different from its parent' % tag, z3.And(*[names[i + 1].z != names[i].z for i in range(len(names) - 1)]), A + p.pc,
+                                            with_axioms=False, with_dens=False, replay=rp, key='naming-mixed:distinct', timeout_ms=solve.qtimeout(60, 300))))
+        results.append(discharge(Obligation('%s: the configuration of every derived world records the name it was built with' % tag, z3.And(*[names[i].z == cfgnames[i].z for i in range(len(names))]), A + p.pc,
+                                            with_axioms=False, with_dens=False, replay=rp, key='naming-mixed:recorded', timeout_ms=solve.qtimeout(60, 300))))
+    results.append({'name': tag0 + ' [reachability twin]', 'key': 'twin', 'twin': True, 'verdict': solve.sat_check(list(A), 60000), 'solver_s': 0.0, 'info': {'paths': len(paths)}})
+    return {'results': results, 'encoded': loader.ENCODED, 'paths': len(paths), 'label': 'naming ' + '>'.join(kinds)}
+
+
 def job_scale():
     """scale_from_world: every length multiplied by the factor, layers stay contiguous, volume fractions preserved, inputs not mutated"""
     captured = {}
@@ -550,6 +621,10 @@ def main():
     jobs += [(job_layer_mass_below, {'nlayers': n}) for n in ((3, 4, 6) if TIER == 'thorough' else (3, 4))]
     jobs += [(job_find_geometry, {})] + [(job_stack, {'kind': k}) for k in ('radius', 'thickness', 'mixed')] + [(job_scale, {})]
     jobs += [(job_naming, {'chain': c}) for c in ((1, 2, 3) if TIER != 'thorough' else (1, 2, 3, 4))]
+    mixed = [('scale', 'scale'), ('named', 'build'), ('named', 'scale'), ('scale', 'build')]
+    if TIER == 'thorough':
+        mixed += [('scale', 'build', 'scale'), ('build', 'named', 'build'), ('named', 'named'), ('scale', 'named', 'scale')]
+    jobs += [(job_naming_mixed, {'kinds': k}) for k in mixed]
     meta = {
         'explanation': 'find_geometry_from_config, PhysicalObjSpherical.set_geometry, the world-mass rule of LayeredWorld.reinit (AST slice), scale_from_world, build_from_world, clean_world_config and nested_merge are '
                        'taken from the current source. Geometry: executed on symbolic radii/masses with np.linspace modelled exactly; z3 decides contiguity, positivity, strict monotonicity of slices, telescoping volume '
